@@ -307,6 +307,13 @@ def run(ctx):
     for i in range(ctx.n(600, 40000)):
         n_pilots = rng.randint(1, 4)
         sides = ['client'] + ['pilot.%04d' % k for k in range(n_pilots)]
+        if rng.random() < 0.35:
+            # pilot uids are application data (PilotDescription.uid): names
+            # which contain each other, or the word 'client'
+            pool  = ['p1', 'p10', 'p100', 'sim', 'sim.gpu', 'hpc_client',
+                     'client.2', 'pilot', 'pilot.0']
+            sides = ['client'] + rng.sample(pool, n_pilots)
+            res.count('sequences_with_nested_side_names')
         msgs, pumps = list(), dict()
         for j in range(rng.randint(2, 6)):
             msgs.append([rng.choice(sides), rng.choice(CHANNELS)[0],
